@@ -10,6 +10,7 @@ non-conserving sectors); (3) to_dense against gen.densify; (4) blocks -> dense
 evaluated on the same inputs inside Coq and compared exactly."""
 import itertools
 import json
+import re
 import warnings
 
 import numpy as np
@@ -185,7 +186,7 @@ def run(ctx):
     exprs, meta = [], []
     drift = []
     stats = {'routes': 0, 'routes_raise_expected': 0, 'projection': 0, 'to_dense': 0, 'round_trip': 0,
-             'fermionic_signs': 0, 'odd_requires_oddpos': 0, 'model_cases': 0}
+             'fermionic_signs': 0, 'odd_requires_oddpos': 0, 'inferred_charge': 0, 'model_cases': 0}
     dist = {}
     configs = class_configs(sr)
     reps = 8 if ctx.thorough else 2
@@ -241,9 +242,10 @@ def run(ctx):
                 dist[key] = dist.get(key, 0) + 1
                 ctxd = {'class': cls.__name__, 'symmetry': sym, 'omitted': list(omit), 'chargemaps': [sorted(cm.items()) for cm in cms],
                         'duals': duals, 'charge': q, 'kwargs': {k: str(v) for k, v in fkw.items()}}
-                # expectation of the direct route when the charge is omitted: inferred from the first sector (plain sum)
+                # expectation of the direct route when the charge is omitted: inferred from the first sector, SIGNED by the
+                # index directions (fix 28a1fb2) -- own arithmetic
                 first = next(iter(want_blocks), None)
-                q_direct = q if 'charge' not in omit else (refsym.csum(sym, list(first)) if first is not None else zero)
+                q_direct = q if 'charge' not in omit else (refsym.csum(sym, [refsym.signed(sym, c, du) for c, du in zip(first, duals)]) if first is not None else zero)
                 routes = [
                     ('direct', lambda: cls(indices=ixs, blocks=want_blocks, **qarg, **fkw), q_direct, want_tab, want_blocks),
                     ('from_fill_fn', lambda: cls.from_fill_fn(fill, ixs, **qarg, **fkw), q, want_tab, want_blocks),
@@ -326,6 +328,59 @@ def run(ctx):
                             A, gblocks(want_blocks, 'ZRing'), gbools(duals), gopt_charge(qo), A, gen.garray(r, sym, 'ZRing')), ctxd)
                 if len(ctx.coverage['samples']) < 2 and want_blocks and nd >= 2:
                     ctx.sample({'kind': 'four routes', **jsonable(ctxd), 'sectors': [list(s) for s in want_blocks]})
+
+    # ---- regression stream for fix 28a1fb2: direct construction with the charge OMITTED on arrays of a
+    # non-self-inverse symmetry with dual legs must infer the signed charge: the result is a valid array
+    # (every stored sector conserves its charge, own arithmetic), has the charge the blocks were made for,
+    # and equals the from_blocks(..., charge=that charge) route
+    n_inf = 240 if ctx.thorough else 60
+    for k in range(n_inf):
+        sym = NONSELF[k % len(NONSELF)]
+        static = sym != 'Z4' and rng.random() < 0.5
+        ferm = rng.random() < 0.3
+        nd = rng.randint(1, 3)
+        cms = [gen.rand_chargemap(rng, sym, 3, 2) for _ in range(nd)]
+        duals = [rng.random() < 0.5 for _ in range(nd)]
+        duals[rng.randrange(nd)] = True
+        q = None
+        for _ in range(8):
+            q = gen.pick_charge(rng, sym, cms, duals)
+            if q != refsym.zero(sym):
+                break
+        secs = refsym.valid_sectors(sym, [sorted(cm) for cm in cms], duals, q)
+        if not secs:
+            continue
+        rng.shuffle(secs)
+        secs = secs[:rng.randint(1, len(secs))]
+        blocks = {tuple(s_): gen.rand_data(rng, tuple(cm[c] for cm, c in zip(cms, s_)), False) for s_ in secs}
+        ixs = [sr.BlockIndex(dict(cm), dual=d) for cm, d in zip(cms, duals)]
+        cls = getattr(sr, (gen.STATIC_F if ferm else gen.STATIC)[sym]) if static else (sr.FermionicArray if ferm else sr.AbelianArray)
+        kw = {} if static else {'symmetry': sym}
+        if ferm:
+            kw['oddpos'] = rng.randint(1, 30)       # needed when the inferred parity is odd
+        cd = {'class': cls.__name__, 'symmetry': sym, 'chargemaps': [sorted(cm.items()) for cm in cms], 'duals': duals,
+              'blocks': {str(s_): b for s_, b in blocks.items()}, 'charge_the_blocks_conserve': q, 'charge_argument': 'omitted'}
+        stats['routes'] += 1; stats['inferred_charge'] = stats.get('inferred_charge', 0) + 1; ctx.count()
+        r, err = call(lambda: cls(indices=ixs, blocks=blocks, **kw))
+        if err:
+            bad('direct construction with the charge omitted raises: %s' % err, **cd)
+            continue
+        invalid = [s_ for s_ in r.blocks
+                   if refsym.csum(sym, [refsym.signed(sym, c, du) for c, du in zip(s_, duals)]) != r.charge]
+        if r.charge != q or invalid:
+            bad('direct construction with the charge omitted infers charge %r; the blocks conserve %r (sectors not conserving the '
+                'inferred charge: %r) -- the index directions must enter the inference' % (r.charge, q, invalid), **cd, got=describe(r))
+            continue
+        fb, e2 = call(lambda: cls.from_blocks(blocks, duals, charge=r.charge, **kw))
+        if e2:
+            bad('from_blocks with the inferred charge raises: %s' % e2, **cd)
+        elif fb.charge != r.charge or same_blocks(fb.blocks, r.blocks) or [ix.dual for ix in fb.indices] != duals \
+                or any(dict(a.chargemap).items() - dict(b.chargemap).items() for a, b in zip(fb.indices, r.indices)):
+            bad('direct construction (charge omitted) and from_blocks(charge=inferred) build different arrays', **cd,
+                direct=describe(r), via_from_blocks=describe(fb))
+        ctx.nontrivial(('infer', sym, str(sorted(blocks)), str(duals), str(q)))
+        add_case('__init__', 'aarray_eqb %s ZRing (init_array %s ZRing %s None %s) %s' % (
+            sym, sym, gixs(ixs, sym), gblocks(blocks, 'ZRing'), gen.garray(r, sym, 'ZRing')), cd)
 
     # ---- from_blocks error paths (model None <-> raises)
     for k in range(18 if not ctx.thorough else 90):
@@ -578,11 +633,11 @@ def run(ctx):
     r, err = call(lambda: sru.from_dense(np.zeros((2, 2)), 'Z2', [[0, 1], [0, 1]]))
     if err:
         ctx.note('symmray.utils.from_dense with its default duals=None raises (%s): the helper has no usable default for duals' % err[:80])
-    r, err = call(lambda: sr.U1Array(indices=[sr.BlockIndex({1: 1}, dual=False), sr.BlockIndex({1: 1}, dual=True)], blocks={(1, 1): np.ones((1, 1))}))
-    if err is None and r.charge == 2:
-        ctx.note('__init__ with charge omitted infers combine(*first sector) WITHOUT the dual signs: U1Array([{1:1} ket, {1:1} bra], '
-                 'blocks={(1,1):..}) gets charge 2 although its only block has signed charge 0 (check() would reject it); '
-                 'modelled as the code does (Ctor.init_charge, example init_unsigned_inference_dual)')
+    r, err = call(lambda: sr.U1Array.from_blocks({(2, 1): np.ones((2, 1)), (1, 0): np.ones((1, 1))}, duals=[False, True]))
+    if err is None and r.charge == 0:
+        ctx.note('from_blocks with charge omitted takes the identity charge as documented, whatever the blocks conserve: '
+                 'U1Array.from_blocks({(2,1):.., (1,0):..}, duals=[False, True]) has charge 0 and both sectors are invalid for it '
+                 '(check() raises); direct construction with the charge omitted infers 1 (theorem C16_direct_vs_from_blocks)')
 
     # ============================================================ model correspondence
     bad_idx = common.run_cases(ctx, 'ctor', IMPORTS, '', exprs, shard=60)
@@ -605,7 +660,7 @@ def run(ctx):
 
     seen = set()
     for f in found:
-        key = f['what'][:60]
+        key = re.sub(r'[-\d(), ]+', '#', f['what'])[:60]
         if key in seen:
             continue
         seen.add(key)
@@ -623,6 +678,8 @@ def run(ctx):
         'construction: the 8 static classes with their symmetry and the 2 generic classes with each of Z2/U1/Z2Z2/U1U1/Z4, times every subset '
         'of omitted {charge, symmetry, oddpos}; each cell builds one random tensor (rank 0-3, random tables/dualness, non-zero charge preferred) '
         'directly, via from_fill_fn, from_blocks, from_dense (list and dict labels) and utils.from_dense and compares every route with an '
+        'independently computed expectation; a separate stream builds U1/U1U1/Z4 arrays with dual legs and non-zero charge directly with the charge '
+        'omitted (must infer the signed charge, be valid and equal from_blocks given that charge); here every route is compared with an '
         'independently computed expectation (or expects ValueError); dense->blocks->dense: random integer/Gaussian-integer dense arrays with random '
         'unsorted interleaved labels, every class, against an own numpy projection; to_dense against gen.densify incl. fermionic arrays with '
         'pending signs; blocks->dense->blocks with matching labels.  Non-trivial = a construction cell with >1 sector or rank>=2; a projection case '
